@@ -168,7 +168,8 @@ def run_world(res, desc, tmpdir):
     gsc_seen = False
     while True:
         rep = {"check": ID, "unit": {"kind": "world"}, "desc": desc, "dev": [], "snapshot_at": k}
-        path = os.path.join(tmpdir, f"snap_{os.getpid()}_{k}.pkl")
+        # one snapshot file per world, overwritten at every boundary (as a user who checkpoints into the default file name does)
+        path = os.path.join(tmpdir, f"snap_{os.getpid()}.pkl")
         before = observe(tree)
         calls_before = calls_of(tree)
         st_np = np.random.get_state()[1].tobytes(), np.random.get_state()[2]
@@ -268,7 +269,8 @@ def run_world(res, desc, tmpdir):
                         res.flags["snapshot loaded a second time after the first copy ran on"] += 1
         except Exception as e:
             res.add_violation(ID, f"C19/second-load:exception:{type(e).__name__}", f"second pickle_load of the snapshot at boundary {k} raised {type(e).__name__}: {e}", {}, rep)
-        os.remove(path)
+        if k >= 1:
+            res.flags["snapshot written over an earlier snapshot of the same run"] += 1
         if len(tree.all_demes) >= 2 and steps >= 1:
             res.nontrivial.add(h64((desc, k)))
         res.flags[f"continued {min(steps, 3)}+ steps" if steps else "snapshot at the final boundary"] += 1
@@ -290,6 +292,8 @@ def run_world(res, desc, tmpdir):
         tree.run_step()
         k += 1
     res.outcomes.add(h64(canonical_state(tree, True)))
+    if os.path.exists(path):
+        os.remove(path)
     res.configs_completed += 1
 
 
